@@ -42,11 +42,16 @@ Proof. reflexivity. Qed.
 Lemma gen_clear r : g_clear r = empty_reg.
 Proof. reflexivity. Qed.
 
-(* first complete evaluation of let(T, None): what step does for QueryE; later evaluations: EvalV on a cached variable *)
-Lemma gen_eval_fresh children fuel L r T :
-  g_eval_fresh children fuel L r T =
-  (sweep L r, dedupo (instances children fuel L (sweep L r) T), dedup (somes (instances children fuel L (sweep L r) T))).
-Proof. unfold g_eval_fresh. now rewrite gen_instances. Qed.
+(* a complete evaluation of let(T, None): what step does for QueryE / EvalV; and the lazy walk of live evaluations *)
+Lemma gen_eval children fuel L r T :
+  g_eval children fuel L r T = (sweep L r, dedupo (instances children fuel L (sweep L r) T)).
+Proof. unfold g_eval. now rewrite gen_instances. Qed.
+
+Lemma gen_pull_cur L seen cur : g_pull_cur L seen cur = pull_cur L seen cur.
+Proof. induction cur as [|w t IH]; simpl; auto. unfold g_deref, deref. now rewrite IH. Qed.
+
+Lemma gen_pull_classes L r seen cs : g_pull_classes L r seen cs = pull_classes L r seen cs.
+Proof. induction cs as [|c cs IH]; simpl; auto. now rewrite gen_pull_cur, IH. Qed.
 
 Definition GenIsModel : Prop :=
   (forall r w, g_add_node r w = add_node r w) /\
@@ -59,11 +64,14 @@ Definition GenIsModel : Prop :=
   (forall L r a f b ia ib, g_relate L r a f b ia ib = relate L r a f b ia ib) /\
   (forall r x i, g_new r x i = add_node r (W (o_id x) (o_cls x) (o_pyid x) i)) /\
   (forall r, g_clear r = empty_reg) /\
-  (forall children fuel L r T, g_eval_fresh children fuel L r T =
-     (sweep L r, dedupo (instances children fuel L (sweep L r) T), dedup (somes (instances children fuel L (sweep L r) T)))).
+  (forall children fuel L r T, g_eval children fuel L r T = (sweep L r, dedupo (instances children fuel L (sweep L r) T))) /\
+  (forall L seen cur, g_pull_cur L seen cur = pull_cur L seen cur) /\
+  (forall L r seen cs, g_pull_classes L r seen cs = pull_classes L r seen cs) /\
+  g_held_after_eval = [].
 
 Theorem gen_is_model : GenIsModel.
 Proof.
   exact (conj gen_add_node (conj gen_remove_node (conj gen_add_relation (conj gen_sweep (conj gen_rsub
-        (conj gen_instances (conj gen_ensure (conj gen_relate (conj gen_new (conj gen_clear gen_eval_fresh)))))))))).
+        (conj gen_instances (conj gen_ensure (conj gen_relate (conj gen_new (conj gen_clear (conj gen_eval
+        (conj gen_pull_cur (conj gen_pull_classes eq_refl))))))))))))).
 Qed.
